@@ -6,7 +6,7 @@
 
 use std::{
     collections::BTreeMap,
-    net::{TcpListener, TcpStream},
+    net::TcpStream,
     path::{Path, PathBuf},
     sync::{
         atomic::{AtomicBool, AtomicUsize, Ordering},
@@ -153,7 +153,7 @@ struct TlsPrinter {
 
 impl TlsPrinter {
     fn start(id: Identity, script: Script) -> std::io::Result<TlsPrinter> {
-        let l = TcpListener::bind("127.0.0.1:0")?;
+        let l = crate::tcp::thread_listener()?;
         let port = l.local_addr()?.port();
         let stop = Arc::new(AtomicBool::new(false));
         let seen: Arc<Mutex<Vec<SeenConn>>> = Arc::new(Mutex::new(Vec::new()));
@@ -202,7 +202,9 @@ impl TlsPrinter {
             std::thread::sleep(Duration::from_micros(300));
         }
         self.stop.store(true, Ordering::SeqCst);
-        let _ = TcpStream::connect(("127.0.0.1", self.port));
+        if let Ok(w) = TcpStream::connect(("127.0.0.1", self.port)) {
+            crate::tcp::set_linger_zero(&w); // wake the accept loop; abort instead of close: no TIME_WAIT left behind
+        }
         if let Some(a) = self.accept.take() {
             let _ = a.join();
         }
